@@ -73,6 +73,21 @@ static JanetSlot genericSSI(JanetFopts opts, int op, JanetSlot s, int32_t imm) {
     return target;
 }
 
+/* Get a target for a result that is written before the operands args[from..] have
+ * all been read. The hinted target may be one of those operands - (set x (+ b x x)) -
+ * in which case writing it early would change the operand; use a fresh slot then. */
+static JanetSlot gettarget_noalias(JanetFopts opts, JanetSlot *args, int32_t from) {
+    JanetSlot t = janetc_gettarget(opts);
+    int32_t len = janet_v_count(args);
+    for (int32_t i = from; i < len; i++) {
+        if (janetc_sequal(t, args[i])) {
+            opts.flags &= ~JANET_FOPTS_HINT;
+            return janetc_gettarget(opts);
+        }
+    }
+    return t;
+}
+
 /* Emit an insruction that implements a form by itself. */
 static JanetSlot opfunction(
     JanetFopts opts,
@@ -135,7 +150,7 @@ static JanetSlot opreduce(
         }
         return t;
     }
-    t = janetc_gettarget(opts);
+    t = gettarget_noalias(opts, args, 2);
     if (opim && can_slot_be_imm(args[1], &imm)) {
         janetc_emit_ssi(c, opim, t, args[0], imm, 1);
     } else {
@@ -205,7 +220,7 @@ static JanetSlot do_put(JanetFopts opts, JanetSlot *args) {
         janetc_emit_sss(opts.compiler, JOP_PUT, args[0], args[1], args[2], 0);
         return janetc_cslot(janet_wrap_nil());
     } else {
-        JanetSlot t = janetc_gettarget(opts);
+        JanetSlot t = gettarget_noalias(opts, args, 1);
         janetc_copy(opts.compiler, t, args[0]);
         janetc_emit_sss(opts.compiler, JOP_PUT, t, args[1], args[2], 0);
         return t;
@@ -315,7 +330,7 @@ static JanetSlot compreduce(
                ? janetc_cslot(janet_wrap_false())
                : janetc_cslot(janet_wrap_true());
     }
-    t = janetc_gettarget(opts);
+    t = gettarget_noalias(opts, args, 1);
     for (i = 1; i < len; i++) {
         if (opim && can_slot_be_imm(args[i], &imm)) {
             janetc_emit_ssi(c, opim, t, args[i - 1], imm, 1);
